@@ -15,6 +15,7 @@ static char g_path[300];
 typedef struct { bool err_seen; uint64_t hash; char first_err[96]; } obs_t;
 #define ERR(o, what) do { if (!(o)->err_seen) { (o)->err_seen = true; snprintf((o)->first_err, sizeof (o)->first_err, "%s", what); } } while (0)
 
+static int g_bigread;      /* scenario variant: one read_batch call per chunk (spans every page of the chunk) instead of calls of 2 rows */
 static int g_errnull;      /* scenario variant: every optional carquet_error_t* argument is NULL */
 #define EP(e) (g_errnull ? NULL : (e))
 static uint8_t* g_file; static size_t g_file_n;      /* input file of the read scenarios */
@@ -65,8 +66,8 @@ static void scn_read(int mode, int ncols, const int* ptypes, const int* tlens, o
         carquet_column_reader_t* cr = carquet_reader_get_column(rd, g, c, EP(&err)); if (!cr) { ERR(o, "get_column"); continue; }
         int w = ref_type_width(ptypes[c], tlens[c]); size_t vs = ptypes[c] == PT_BYTE_ARRAY ? sizeof(carquet_byte_array_t) : (size_t)w;
         for (int guard = 0; guard < 100; guard++) {
-            uint8_t* vb = mc_exact(NULL, vs * 2); int16_t* db = mc_exact(NULL, 4); memset(vb, 0, vs * 2); memset(db, 0, 4);
-            int64_t n = carquet_column_read_batch(cr, vb, 2, db, NULL);
+            int64_t K = g_bigread ? 64 : 2; uint8_t* vb = mc_exact(NULL, vs * (size_t)K); int16_t* db = mc_exact(NULL, 2 * (size_t)K); memset(vb, 0, vs * (size_t)K); memset(db, 0, 2 * (size_t)K);
+            int64_t n = carquet_column_read_batch(cr, vb, K, db, NULL);
             mc_log("  rg%d col%d read_batch(2) = %lld  def=[%d,%d]", g, c, (long long)n, db[0], db[1]);
             if (n < 0) { ERR(o, "read_batch"); free(vb); free(db); break; }
             if (n == 0) { free(vb); free(db); break; }
@@ -104,19 +105,20 @@ static void scn_batch(int mode, obs_t* o) {
     o->hash = h; carquet_reader_close(rd);
 }
 
-enum { K_SCHEMA, K_WRITE, K_READ, K_BATCH, K_DICTREAD, K_WIDE, K_DICTBATCH };
-typedef struct { int kind, a, b; const char* name; int errnull; } scn_t;
+enum { K_SCHEMA, K_WRITE, K_READ, K_BATCH, K_DICTREAD, K_WIDE, K_DICTBATCH, K_PLAINBA };
+typedef struct { int kind, a, b; const char* name; int errnull, bigread; } scn_t;
 static int g_dict_pt[2] = { PT_BYTE_ARRAY, PT_INT64 }, g_dict_tl[2] = { 0, 0 };
 static void run_scenario(const scn_t* s, obs_t* o) {
     memset(o, 0, sizeof *o); int pt[3], tl[3]; for (int c = 0; c < 3; c++) { pt[c] = g_hist.cols[c].ptype; tl[c] = g_hist.cols[c].tlen; }
-    g_errnull = s->errnull; mcf_on();
+    g_errnull = s->errnull; g_bigread = s->bigread; mcf_on();
     switch (s->kind) { case K_SCHEMA: scn_schema(o); break; case K_WRITE: scn_write(s->a, o); break; case K_READ: scn_read(s->a, 3, pt, tl, o); break; case K_BATCH: scn_batch(s->a, o); break; case K_WIDE: scn_write_wide(s->a, o); break; case K_DICTBATCH: scn_batch(s->a, o); break; default: scn_read(s->a, 2, g_dict_pt, g_dict_tl, o); break; }
     mcf_off();
 }
 static void prepare_input(const scn_t* s) {
     free(g_file); g_file = NULL;
     if (s->kind == K_READ || s->kind == K_BATCH) { table_hist(s->b, &g_hist); carquet_status_t st; const char* where; if (tbl_write(&g_hist, &g_file, &g_file_n, &st, &where)) mc_harness_error("cannot write input file"); }
-    else if (s->kind == K_DICTREAD || s->kind == K_DICTBATCH) { rfile_t f; memset(&f, 0, sizeof f); f.ncols = 2; f.N = 7; f.nrg = 2; f.codec = s->b; f.crc = true; f.dict_offset_present = true; f.col[0].ptype = PT_BYTE_ARRAY; f.col[0].opt = 1; f.mask[0] = 0x24; f.enc[0] = ENC_RLE_DICT; f.npages[0] = 2; f.page_levels[0][0] = 3; f.page_levels[0][1] = 4; f.col[1].ptype = PT_INT64; f.enc[1] = ENC_PLAIN_DICT;
+    else if (s->kind == K_DICTREAD || s->kind == K_DICTBATCH || s->kind == K_PLAINBA) { rfile_t f; memset(&f, 0, sizeof f); f.ncols = 2; f.N = 7; f.nrg = 2; f.codec = s->b; f.crc = true; f.dict_offset_present = true; f.col[0].ptype = PT_BYTE_ARRAY; f.col[0].opt = 1; f.mask[0] = 0x24; f.enc[0] = ENC_RLE_DICT; f.npages[0] = 2; f.page_levels[0][0] = 3; f.page_levels[0][1] = 4; f.col[1].ptype = PT_INT64; f.enc[1] = ENC_PLAIN_DICT;
+        if (s->kind == K_PLAINBA) { f.N = 8; f.nrg = 1; f.enc[0] = ENC_PLAIN; f.enc[1] = ENC_PLAIN; f.pattern = 3; f.npages[0] = 3; f.page_levels[0][0] = 3; f.page_levels[0][1] = 3; f.page_levels[0][2] = 2; }      /* a PLAIN byte-array chunk of three pages: views of the first pages must survive the loading of the next ones */
         memset(&g_hist, 0, sizeof g_hist); g_hist.cols[0].ptype = PT_BYTE_ARRAY; g_hist.cols[0].opt = 1; g_hist.cols[1].ptype = PT_INT64;
         ref_buf img; ref_buf_init(&img); static ref_coldata cols[8]; int np; if (rf_build(&RA, &f, &img, NULL, 0, &np, cols)) mc_harness_error("reference writer failed"); g_file = mc_exact(img.p, img.n); g_file_n = img.n; ref_buf_free(&img); ref_arena_free(&RA); }
     if (g_file) { FILE* fp = fopen(g_path, "wb"); if (!fp || fwrite(g_file, 1, g_file_n, fp) != g_file_n) mc_harness_error("scratch write failed"); fclose(fp); }
@@ -139,7 +141,7 @@ static void enumerate(void) {
             "all handles are then closed/freed, the number of live library allocations afterwards does not exceed the fault-free steady state, and either some call reported an error or the result (file bytes / values read) is identical to the fault-free run. "
             "One mc case per (scenario, k); evaluations = fault points. Non-trivial = every fault point that was reached; distinct by (scenario, k1, k2).");
     const char* sd = getenv("VERIF_SCRATCH"); snprintf(g_path, sizeof g_path, "%s/c19_%d.parquet", sd ? sd : "/dev/shm", (int)getpid());
-    static scn_t S[160]; int ns = 0; static const int CD[] = { 0, 1, 2, 5, 6 }; static const char* CN[] = { "uncompressed", "snappy", "gzip", "lz4", "zstd" }; static const char* MN[] = { "buffer", "fread", "mmap" }; static char names[160][48];
+    static scn_t S[200]; int ns = 0; static const int CD[] = { 0, 1, 2, 5, 6 }; static const char* CN[] = { "uncompressed", "snappy", "gzip", "lz4", "zstd" }; static const char* MN[] = { "buffer", "fread", "mmap" }; static char names[200][48];
     S[ns] = (scn_t){ K_SCHEMA, 0, 0, "schema-build" }; ns++;
     for (int c = 0; c < 5; c++) { snprintf(names[ns], 48, "write.%s", CN[c]); S[ns] = (scn_t){ K_WRITE, CD[c], 0, names[ns] }; ns++; }
     snprintf(names[ns], 48, "write.nine-row-groups.uncompressed"); S[ns] = (scn_t){ K_WRITE, 100, 0, names[ns] }; ns++;
@@ -150,6 +152,9 @@ static void enumerate(void) {
     for (int m = 0; m < 3; m++) for (int c = 0; c < 2; c++) { snprintf(names[ns], 48, "dict-batch.%s.%s", MN[m], c ? "snappy" : "uncompressed"); S[ns] = (scn_t){ K_DICTBATCH, m, c ? CODEC_SNAPPY : CODEC_NONE, names[ns] }; ns++; }
     { int base = ns; for (int i = 0; i < base; i++) if (S[i].kind == K_READ || S[i].kind == K_BATCH || S[i].kind == K_DICTREAD || S[i].kind == K_DICTBATCH) { if (S[i].kind == K_READ && S[i].b != 0 && S[i].b != 1) continue;      /* the error argument omitted: uncompressed and snappy */
           snprintf(names[ns], 48, "%s.no-error-arg", S[i].name); S[ns] = S[i]; S[ns].name = names[ns]; S[ns].errnull = 1; ns++; } }
+    for (int m = 0; m < 3; m++) for (int c = 0; c < 2; c++) { snprintf(names[ns], 48, "plain-strings-read.%s.%s", MN[m], c ? "snappy" : "uncompressed"); S[ns] = (scn_t){ K_PLAINBA, m, c ? CODEC_SNAPPY : CODEC_NONE, names[ns] }; ns++; }
+    { int base = ns; for (int i = 0; i < base; i++) if ((S[i].kind == K_READ || S[i].kind == K_DICTREAD || S[i].kind == K_PLAINBA) && !S[i].errnull && (S[i].b == 0 || S[i].b == 1)) {      /* one call per chunk: byte-array views of an earlier page must survive the loading of the later pages of the same call */
+          snprintf(names[ns], 48, "%s.one-call", S[i].name); S[ns] = S[i]; S[ns].name = names[ns]; S[ns].bigread = 1; ns++; } }
     /* warm caches that live for the whole process (zstd contexts, lazily built tables) */
     { (void)carquet_init(); scn_t w = { K_READ, 0, 6, "warm" }; prepare_input(&w); obs_t o; mcf_reset(); run_scenario(&w, &o); scn_t w2 = { K_WRITE, 6, 0, "warm" }; run_scenario(&w2, &o); scn_t w3 = { K_WRITE, 2, 0, "warm" }; run_scenario(&w3, &o); }
     mc_stage("single-fault.every-request");
